@@ -2390,7 +2390,11 @@ class FuncList(ValueFunc):
     def execute(self, args, environment, pos):
         if not args.hasArg("obj"):
             return ValueList()
-        return args.getAsList("obj")
+        result = args.getAsList("obj")
+        if result is args.get("obj"):
+            # a conversion yields a value of its own, not its argument
+            result = ValueList().addItems(result.value)
+        return result
 
 
 class FuncListDir(ValueFunc):
@@ -2574,7 +2578,11 @@ class FuncMap(ValueFunc):
     def execute(self, args, environment, pos):
         if not args.hasArg("obj"):
             return ValueMap()
-        return args.getAsMap("obj")
+        result = args.getAsMap("obj")
+        if result is args.get("obj"):
+            # a conversion yields a value of its own, not its argument
+            result = ValueMap().addMap(result.value)
+        return result
 
 
 class FuncMatches(ValueFunc):
@@ -2748,7 +2756,14 @@ class FuncObject(ValueFunc):
     def execute(self, args, environment, pos):
         if not args.hasArg("obj"):
             return ValueObject()
-        return args.getAsObject("obj")
+        result = args.getAsObject("obj")
+        if result is args.get("obj"):
+            # a conversion yields a value of its own, not its argument
+            copy = ValueObject()
+            copy.value.update(result.value)
+            copy.isModule = result.isModule
+            result = copy
+        return result
 
 
 class FuncOrd(ValueFunc):
@@ -3576,7 +3591,11 @@ class FuncSet(ValueFunc):
     def execute(self, args, environment, pos):
         if not args.hasArg("obj"):
             return ValueSet()
-        return args.getAsSet("obj")
+        result = args.getAsSet("obj")
+        if result is args.get("obj"):
+            # a conversion yields a value of its own, not its argument
+            result = ValueSet().addItems(result.value)
+        return result
 
 
 class FuncSetSeed(ValueFunc):
